@@ -115,19 +115,54 @@ ni_conf_enc_only!(aes256enc_ni, crate::Aes256Enc, 32);
 ni_conf_dec_only!(aes256dec_ni, crate::Aes256Dec, 32);
 
 // ---- oracle-only lemmas: FIPS-197 5.3.5 — the two facts that make EqInvCipher equal InvCipher
-//@ harness name=fips_eqinv_lemmas prop=C02 tier=quick bits=256 est=60 desc="oracle lemma (FIPS-197 5.3.5): InvMixColumns(x ^ k) == InvMixColumns(x) ^ InvMixColumns(k), and InvShiftRows/InvSubBytes commute, and InvMixColumns(MixColumns(x)) == x; all 128-bit x, k"
+// (FIPS-197 5.3.5: EqInvCipher == InvCipher because InvMixColumns is linear and InvShiftRows commutes with the bytewise
+// InvSubBytes; one query per fact, each over one state column / one state where that suffices)
+//@ harness name=fips_imc_linear prop=C02 tier=quick bits=64 est=30 desc="oracle lemma (FIPS-197 5.3.5): InvMixColumns(x ^ k) == InvMixColumns(x) ^ InvMixColumns(k) on a state whose first column is symbolic in x and k (columns are mixed independently by the same matrix); all 2^32 x 2^32 column values"
 verif_harness! {
-    name: fips_eqinv_lemmas,
-    bytes: 32,
+    name: fips_imc_linear,
+    bytes: 8,
     unwind: 20,
     prop: |inp| {
-        let x: [u8; 16] = take(inp, 0);
-        let k: [u8; 16] = take(inp, 16);
-        vcheck!(ra::inv_mix_columns(&ra::xor(&x, &k)) == ra::xor(&ra::inv_mix_columns(&x), &ra::inv_mix_columns(&k)));
+        let mut x = [0u8; 16];
+        let mut k = [0u8; 16];
+        let mut i = 0;
+        while i < 4 {
+            x[i] = inp[i];
+            k[i] = inp[4 + i];
+            i += 1;
+        }
+        Some(ra::inv_mix_columns(&ra::xor(&x, &k)) == ra::xor(&ra::inv_mix_columns(&x), &ra::inv_mix_columns(&k)))
+    }
+}
+//@ harness name=fips_mc_inverse prop=C02,C17 tier=quick bits=32 est=30 desc="oracle lemma: InvMixColumns(MixColumns(c)) == c == MixColumns(InvMixColumns(c)) for all 2^32 values of one column, in each of the four column positions"
+verif_harness! {
+    name: fips_mc_inverse,
+    bytes: 5,
+    unwind: 20,
+    prop: |inp| {
+        let c = (inp[4] & 3) as usize;
+        let mut x = [0u8; 16];
+        let mut i = 0;
+        while i < 4 {
+            x[4 * c + i] = inp[i];
+            i += 1;
+        }
         vcheck!(ra::inv_mix_columns(&ra::mix_columns(&x)) == x);
+        Some(ra::mix_columns(&ra::inv_mix_columns(&x)) == x)
+    }
+}
+//@ harness name=fips_shiftrows_commute prop=C02 tier=quick bits=128 est=30 desc="oracle lemma: InvShiftRows and ShiftRows are mutually inverse, and InvShiftRows commutes with the bytewise InvSubBytes (it only moves bytes); all 2^128 states"
+verif_harness! {
+    name: fips_shiftrows_commute,
+    bytes: 16,
+    unwind: 20,
+    prop: |inp| {
+        let x: [u8; 16] = *inp;
         vcheck!(ra::inv_shift_rows(&ra::shift_rows(&x)) == x);
-        vcheck!(ra::sub_bytes_with(&ra::inv_shift_rows(&x), &ra::inv_sbox) == ra::inv_shift_rows(&ra::sub_bytes_with(&x, &ra::inv_sbox)));
-        Some(true)
+        vcheck!(ra::shift_rows(&ra::inv_shift_rows(&x)) == x);
+        // InvShiftRows only moves bytes: applying a bytewise map before or after gives the same state.  The bytewise map
+        // used is the real InvSubBytes table.
+        Some(ra::sub_bytes_with(&ra::inv_shift_rows(&x), &ra::inv_sbox) == ra::inv_shift_rows(&ra::sub_bytes_with(&x, &ra::inv_sbox)))
     }
 }
 //@ harness name=fips_sbox_inverse prop=C02 tier=quick bits=8 est=20 desc="oracle lemma: InvSubBytes(SubBytes(x)) == x for all bytes (generated S-box tables are mutually inverse permutations)"
